@@ -9,7 +9,7 @@ done
 wait
 cat $L/regress_seeded_?.log | grep -v conda > $L/regress_seeded.log
 python3 tools/matrix.py /verif/seeded --merge $L/seeded_shard0.json $L/seeded_shard1.json $L/seeded_shard2.json $L/seeded_shard3.json --write-expectations > /dev/null 2>&1
-for c in refactor2 refactor4 refactor5 features3 features5; do
+for c in refactor2 refactor4 refactor5 refactor6 features3 features5 features6; do
   python3 tools/matrix.py /verif/selftest/$c > $L/regress_$c.log 2>&1 &
 done
 python3 tools/benign.py > $L/regress_benign.log 2>&1 &
@@ -22,7 +22,7 @@ python3 tools/selftests.py C16 C17 C18 C19 C20 > $L/regress_selftests_d.log 2>&1
 python3 tools/rename_probe.py > $L/regress_rename.log 2>&1 &
 wait
 echo "== seeded: $(grep -c DETECTED-BY $L/regress_seeded.log) detected, $(grep -c ' missed ' $L/regress_seeded.log) missed, $(grep -c ERROR $L/regress_seeded.log) errors"
-for c in refactor2 refactor4 refactor5 features3 features5; do
+for c in refactor2 refactor4 refactor5 refactor6 features3 features5 features6; do
   echo "== $c alarms: $(grep -c DETECTED-BY $L/regress_$c.log) of $(grep -c -E 'DETECTED-BY| missed ' $L/regress_$c.log); errors $(grep -c ERROR $L/regress_$c.log)"
   grep DETECTED-BY $L/regress_$c.log | cut -c1-260
 done
